@@ -8,7 +8,7 @@ MkItem(tag, a, b) == [k \in {"t"} \cup (IF a = Absent THEN {} ELSE {"a"}) \cup (
                         IF k = "t" THEN tag ELSE IF k = "a" THEN a ELSE b]
 NewItems == {MkItem(100, 0, None), MkItem(100, Absent, 1), MkItem(100, None, Absent)}
 NewLists == {<<>>, <<MkItem(100, 0, None)>>, <<MkItem(100, 1, 1), MkItem(101, Absent, 0)>>}
-Preds == {[f |-> "a_eq", v |-> v] : v \in {None, 0, 1}} \cup {[f |-> "b_notnone"], [f |-> "true"], [f |-> "false"]}
+Preds == {[f |-> "a_eq", v |-> v] : v \in {None, 0, 1}} \cup {[f |-> "b_notnone"], [f |-> "b_value"], [f |-> "true"], [f |-> "false"]}
 Fns == {[f |-> "const", v |-> v] : v \in {None, 1}} \cup {[f |-> "from", k |-> "b"]}
 KeySeqs == {<<"a">>, <<"b">>, <<"a", "b">>, <<"b", "a">>}
 Args(n) ==
